@@ -188,7 +188,7 @@ func (e *Engine) loadContractFile(path, pkgShort string) error {
 		lines = append(lines, logical{t, i + 1})
 	}
 	isStart := func(s string) bool {
-		for _, k := range []string{"func ", "trusted func ", "interface ", "spec ", "requires", "ensures", "modifies", "loop ", "ghost ", "also", "pure", "noinline", "inline", "witness ", "lemma ", "assert", "at "} {
+		for _, k := range []string{"func ", "trusted func ", "interface ", "spec ", "ghostvar ", "requires", "ensures", "modifies", "loop ", "ghost ", "also", "pure", "noinline", "inline", "witness ", "lemma ", "assert", "at "} {
 			if strings.HasPrefix(s, k) {
 				return true
 			}
@@ -210,6 +210,17 @@ func (e *Engine) loadContractFile(path, pkgShort string) error {
 	for _, l := range joined {
 		t := l.text
 		switch {
+		case strings.HasPrefix(t, "ghostvar "):
+			w := strings.Fields(t)
+			if len(w) != 3 {
+				return fmt.Errorf("%s:%d: ghostvar needs name and sort", path, l.line)
+			}
+			srt := map[string]string{"int": SInt, "bool": SBool, "seq": SSeq, "ref": SRef}[w[2]]
+			if srt == "" {
+				return fmt.Errorf("%s:%d: unknown ghost sort %s", path, l.line, w[2])
+			}
+			e.ghostSorts[w[1]] = srt
+			cur = nil
 		case strings.HasPrefix(t, "spec "):
 			m := specRe.FindStringSubmatch(t)
 			if m == nil {
